@@ -305,9 +305,39 @@ func runC12(r *evid.Run) {
 		pairs += n
 		mu.Unlock()
 	})
+	// ... and with every byte value at the position where two paths first differ (the order treats exactly one
+	// byte, the separator, specially: any other value given a role shows against the component-wise order)
+	var wide []string
+	pre := []string{"", "a/"}
+	if r.Tier == "thorough" {
+		pre = []string{"", "a", "a/", "ab"}
+	}
+	for _, p := range pre {
+		for x := 0; x < 256; x++ {
+			for _, suf := range []string{"", "/", "b", "/b"} {
+				wide = append(wide, p+string([]byte{byte(x)})+suf)
+			}
+		}
+	}
+	par.Do(len(wide), par.Workers(), func(i int) {
+		a := wide[i]
+		n := int64(0)
+		for _, b := range wide {
+			n++
+			got, want := sign(fsutil.ComparePath(a, b)), sign(fsmodel.ComparePaths(a, b))
+			if got != want || (got == 0) != (a == b) || got != -sign(fsutil.ComparePath(b, a)) {
+				r.Violate("order-pair", fmt.Sprintf("ComparePath(%q,%q)=%d, component-wise=%d, reverse=%d", a, b, got, want, fsutil.ComparePath(b, a)),
+					map[string]any{"order": []string{a, b}})
+			}
+		}
+		mu.Lock()
+		pairs += n
+		mu.Unlock()
+	})
 	r.Evaluations.Add(pairs)
 	r.Transitions.Add(pairs)
 	r.Add("order_pairs", pairs)
+	r.Set("order_pairs_all_byte_values", len(wide)*len(wide))
 	for i := 0; i < 400 && i < len(strs); i++ {
 		r.Nontrivial("pair:" + strs[i])
 	}
